@@ -13,7 +13,10 @@ import (
 
 func init() { register("C14", "exploration", checkC14) }
 
-var c14Chars = []string{"a", "b", "Z", "0", " ", "é", "ß", "中", "文", "字", "😀", "𠀀", "é", "한", "あ", "-", "，", "\n"}
+// (U+FFFD is a character like any other - and the one decoders hand back for garbage, so code that
+// treats "RuneError" as "no character" loses it; NUL, a byte-order mark, U+2028, a noncharacter, the
+// last code point and the encoding-length boundaries are here for the same reason)
+var c14Chars = []string{"a", "b", "Z", "0", " ", "é", "ß", "中", "文", "字", "😀", "𠀀", "é", "한", "あ", "-", "，", "\n", "\uFFFD", "\x00", "\uFEFF", "\u2028", "\uFFFF", "\U0010FFFF", "\u0080", "\u07FF", "\u0800"}
 
 func c14Text(r *rand.Rand, n int) string {
 	var sb strings.Builder
@@ -33,7 +36,7 @@ type c14Fmt struct {
 }
 
 func checkC14(c *Ctx) {
-	c.rule = "(1) text operations through the element API: for texts over ASCII/CJK/astral/combining characters, 长度 == 字数 == len(字符组) == number of code points; 取样(i,j) for every pair in [-(n+2), n+2]^2 (all pairs for n<=10, random beyond): inside 1<=i<=j<=n it must equal characters i..j of 字符组 joined, elsewhere any result must be valid UTF-8 (never half a character); every pair is repeated on a shadow text of equally many distinct one-byte characters and must select the same positions with the same outcome kind (counting must not depend on byte lengths); 分隔 then 拼接 with the same separator is the identity; the same laws through Zn programs; (2) formatting ‹template› % ‹list› through Zn programs: templates mixing literal text and the documented placeholders {} {#} {#.N} {#+} {#.N%} {#.NE} (N in 0..40) with doubles from a boundary pool and random; expected text built from Python %-formatting; {} must insert exactly what 显示 prints for a value of any kind (objects, types, methods, exceptions, nested collections); templates that must be errors (count mismatch, numeric directive on a non-number, unbalanced/nested braces, directive not starting with #, # followed by other characters, absurd precision). distinct_nontrivial = distinct (family, text shape / directive sequence, outcome)"
+	c.rule = "(1) text operations through the element API: for texts over ASCII/CJK/astral/combining characters and U+FFFD, NUL, U+FEFF, U+2028, U+FFFF, U+10FFFF, the encoding-length boundaries U+0080 / U+07FF / U+0800, 长度 == 字数 == len(字符组) == number of code points; 取样(i,j) for every pair in [-(n+2), n+2]^2 (all pairs for n<=10, random beyond): inside 1<=i<=j<=n it must equal characters i..j of 字符组 joined, elsewhere any result must be valid UTF-8 (never half a character); every pair is repeated on a shadow text of equally many distinct one-byte characters and must select the same positions with the same outcome kind (counting must not depend on byte lengths); 分隔 then 拼接 with the same separator is the identity; the same laws through Zn programs; (2) formatting ‹template› % ‹list› through Zn programs: templates mixing literal text and the documented placeholders {} {#} {#.N} {#+} {#.N%} {#.NE} (N in 0..40) with doubles from a boundary pool and random; expected text built from Python %-formatting; {} must insert exactly what 显示 prints for a value of any kind (objects, types, methods, exceptions, nested collections); templates that must be errors (count mismatch, numeric directive on a non-number, unbalanced/nested braces, directive not starting with #, # followed by other characters, absurd precision). distinct_nontrivial = distinct (family, text shape / directive sequence, outcome)"
 	c.assumptions = []string{"Python % formatting is the reference for the numeric directives", "{} is exercised with texts, booleans, 空 and small integers only (display spelling of doubles is unspecified)", "percent rendering is judged only where x*100 in double and exact decimal scaling agree"}
 	rng := c.Rand("c14")
 	py, err := startPyOracle(c.Root)
@@ -44,7 +47,7 @@ func checkC14(c *Ctx) {
 	defer py.close()
 
 	// ---------------------------------------------------------------- (1) text operations
-	texts := []string{"", "a", "你好", "😀", "a😀b", "éx", "你好，世界", "𠀀𠀁"}
+	texts := []string{"", "a", "你好", "😀", "a😀b", "éx", "你好，世界", "𠀀𠀁", "\uFFFD", "a\uFFFDb\uFFFD", "\x00\uFEFF\uFFFF"}
 	for i := 0; i < c.Pick(150, 4000); i++ {
 		texts = append(texts, c14Text(rng, 1+rng.Intn(c.Pick(10, 14))))
 	}
